@@ -55,3 +55,30 @@ SCRIPTS['C03'] = [
         ev('RecoverStart', pid='u2'), ev('RecoverEnd', b='b2', tok=2, pw=3), probe('b2')],
        seed=[U('u1', 1), U('u2', 2, conf=False)], recoverLogin=True),
 ]
+
+T1 = [U('u1', 1, totp=True, rc=True), U('u2', 2, sms=1, rc=True, otps=2)]
+SCRIPTS['C18'] = [
+    sc('f-remember-recover', ['auth', 'remember', 'recover', 'logout'],
+       [login('u1', 1, rm=True), ev('RecoverStart', 'b2', pid='u1'), ev('RecoverEnd', 'b2', tok=1, pw=3), ev('DropSession', 'b1'),
+        probe('b1'), login('u1', 3, b='b2')], recoverLogin=True, errWrites=True),
+    sc('f-remember-recover-silent', ['auth', 'remember', 'recover', 'lock', 'logout'],
+       [login('u1', 1, rm=True), ev('DropSession', 'b1'), probe('b1'), ev('RecoverStart', 'b2', pid='u1'),
+        ev('RecoverEnd', 'b2', tok=1, pw=3), probe('b1'), ev('Logout', 'b1', method='DELETE')]),
+    sc('f-otp', ['auth', 'otp', 'lock', 'logout'],
+       [ev('OtpLoginPost', pid='u2', tok=1), ev('OtpLoginPost', 'b2', pid='u2', tok=1), ev('OtpAdd'), ev('OtpLoginPost', 'b2', pid='u2', tok=3),
+        ev('OtpClear'), ev('OtpLoginPost', 'b2', pid='u2', tok=2)], seed=T1, errWrites=True),
+    sc('f-otp-2fa', ['auth', 'otp', 'sms', 'totp', 'logout'],
+       [ev('OtpLoginPost', pid='u2', tok=1), ev('SmsValidate', code=1), ev('OtpLoginPost', 'b2', pid='u2', tok=1)], seed=T1, errWrites=True),
+    sc('f-2fa-rc', ['auth', 'totp', 'sms', 'recovery', 'lock', 'logout'],
+       [login('u1', 1), ev('TotpValidate', rc=1, g=1), ev('RecoveryRegen'), login('u1', 1, b='b2'), ev('TotpValidate', 'b2', rc=1, g=1),
+        ev('TotpValidate', 'b2', tok=1, code=1), login('u2', 2, b='b1'), ev('SmsValidate', code=0), ev('SmsValidate', code=2)],
+       seed=T1, errWrites=True, totpOneTime=True),
+    sc('f-2fa-setup', ['auth', 'totp', 'sms', 'recovery', 'logout'],
+       [login('u1', 1), ev('TotpSetup'), ev('TotpConfirm', tok=1, code=1), ev('TotpRemove', tok=1, code=3), ev('SmsSetup', phone=2),
+        ev('SmsConfirm', code=1), ev('SmsRemove', code=0), tick(1), ev('SmsRemove', code=0), ev('SmsRemove', code=2)], seed=[U('u1', 1), U('u2', 2)]),
+    sc('f-register-confirm', ['auth', 'register', 'confirm', 'logout'],
+       [ev('RegisterPost', pid='u2', pw=2), ev('ConfirmGet', tok=1), login('u2', 2), probe()], seed=[U('u1', 1)], errWrites=True),
+    sc('f-oauth', ['auth', 'oauth2', 'remember', 'lock', 'logout'],
+       [ev('OAuthStart', prov='pa', rm=True), ev('OAuthCallback', prov='pa', tok=1, outcome='x'), ev('DropSession'), probe(),
+        ev('Logout', method='DELETE')], errWrites=False),
+]
